@@ -93,6 +93,10 @@ pub trait Adapter: 'static + Sized {
     fn point_coord0(_pt: &Self::Pt) -> Option<Self::F> {
         None
     }
+    /// Multivariate KZG: append a coordinate e != 0 to the point and the witness (t / e) * g to the proof.
+    fn extra_witness(_vk: &VK<Self>, _pt: &mut Self::Pt, _proof: &mut Proof<Self>, _t: Self::F) -> bool {
+        false
+    }
 
     /// Linear codes: universal parameters built through the public constructors with the option
     /// `check_well_formedness = false` (the default `setup` always switches it on).
@@ -877,6 +881,12 @@ impl Adapter for Pst13 {
     }
     fn point_coord0(pt: &Self::Pt) -> Option<Self::F> {
         pt.first().cloned()
+    }
+    fn extra_witness(vk: &VK<Self>, pt: &mut Self::Pt, proof: &mut Proof<Self>, t: Self::F) -> bool {
+        let e = Self::F::from(7u64);
+        pt.push(e);
+        proof.w.push((vk.g.into_group() * (t * e.inverse().unwrap())).into_affine());
+        true
     }
     fn make_point(id: i64, beh: &Beh) -> Self::Pt {
         point_vec(id, nv_of(beh))
